@@ -870,6 +870,8 @@ class VM:
                     return result
             elif callable(method):
                 result = method()
+                if result is None:
+                    result = UNDEFINED
                 if not isinstance(result, JSObject):
                     return result
 
@@ -2274,7 +2276,8 @@ class VM:
             # Use synchronous execution (like _call_callback)
             return self._call_callback(getter, [], this_val)
         elif callable(getter):
-            return getter()
+            result = getter()
+            return result if result is not None else UNDEFINED
         return UNDEFINED
 
     def _invoke_setter(self, setter: Any, this_val: JSValue, value: JSValue) -> None:
@@ -2488,7 +2491,7 @@ class VM:
         elif isinstance(constructor, JSObject) and hasattr(constructor, "_call_fn"):
             # Built-in constructor (like Object, Array, RegExp)
             result = constructor._call_fn(*args)
-            self.stack.append(result)
+            self.stack.append(result if result is not None else UNDEFINED)
         else:
             raise JSTypeError(f"{constructor} is not a constructor")
 
